@@ -594,6 +594,32 @@ def rule_count_stop(ctx, R):
 REORDER = r"slice::<impl \[.*\]>::(sort|sort_by|sort_by_key|sort_unstable|sort_unstable_by|sort_unstable_by_key|sort_by_cached_key|reverse|rotate_left|rotate_right|swap)(::<.*>)?$|Vec::<.*>::(dedup|dedup_by|dedup_by_key|swap_remove)(::<.*>)?$"
 
 
+def reorder_sites(ctx, fn, b, frames, lpush):
+    """[(body, block, callee, filled from the command frames, element is a pair, offending)] for
+    the re-ordering calls in b and its closures"""
+    import rules_rdb
+    out = []
+    for body in shared.closure_tree(ctx, b):
+        for i, t in body.calls():
+            if not re.search(REORDER, t["f"] or "") or not t["a"] or op_is_const(t["a"][0]) or body.bbs[i]["cleanup"]:
+                continue
+            roots = rules_rdb.root_locals(body, t["a"][0])
+            ety = " ".join(body.locals[l] for l in roots)
+            from_args = False
+            for j, tj in body.calls():
+                if re.search(r"Vec::<.*>::(push|insert|extend|extend_from_slice)(::<.*>)?$", tj["f"] or "") and tj["a"] and not op_is_const(tj["a"][0]) and (rules_rdb.root_locals(body, tj["a"][0]) & roots):
+                    for a in tj["a"][1:]:
+                        if not op_is_const(a) and (set(up_params(ctx, body, a)) & set(frames)):
+                            from_args = True
+            for l in roots:
+                for kind, db, d in prov.build_defs(body).get(l, ()):
+                    if kind == "call" and re.search(r"Iterator>::collect|::to_vec$", d["f"] or "") and d["a"] and not op_is_const(d["a"][0]) and (set(up_params(ctx, body, d["a"][0])) & set(frames)):
+                        from_args = True
+            pairs = bool(re.search(r"Vec<\(", ety))
+            out.append((body, i, shared.short_callee(t["f"]), from_args, pairs, from_args and (pairs or lpush)))
+    return out
+
+
 def make_arg_order_rule(pid):
     def rule_arg_order(ctx, R):
         """arguments are applied in the order the client gave them: in the command layer (the
@@ -601,7 +627,6 @@ def make_arg_order_rule(pid):
         command's frames is not re-ordered (sort*, reverse, dedup*, swap*, rotate*) before it is
         applied, where the order carries meaning -- (key, value) / (score, member) pairs (the
         last pair for a repeated name wins) and the elements of a list push."""
-        import rules_rdb
         cp = shared.command_path(ctx)
         n = 0; nre = 0
         muts = set(shared.mutators(ctx))
@@ -615,29 +640,13 @@ def make_arg_order_rule(pid):
             if not (ctx.cg.reach([fn]) & muts):
                 continue
             n += 1
-            for body in shared.closure_tree(ctx, b):
-                for i, t in body.calls():
-                    if not re.search(REORDER, t["f"] or "") or not t["a"] or op_is_const(t["a"][0]) or body.bbs[i]["cleanup"]:
-                        continue
-                    nre += 1
-                    roots = rules_rdb.root_locals(body, t["a"][0])
-                    ety = " ".join(body.locals[l] for l in roots)
-                    from_args = False
-                    for j, tj in body.calls():
-                        if re.search(r"Vec::<.*>::(push|insert|extend|extend_from_slice)(::<.*>)?$", tj["f"] or "") and tj["a"] and not op_is_const(tj["a"][0]) and (rules_rdb.root_locals(body, tj["a"][0]) & roots):
-                            for a in tj["a"][1:]:
-                                if not op_is_const(a) and (set(up_params(ctx, body, a)) & set(frames)):
-                                    from_args = True
-                    for l in roots:
-                        for kind, db, d in prov.build_defs(body).get(l, ()):
-                            if kind == "call" and re.search(r"Iterator>::collect|::to_vec$", d["f"] or "") and d["a"] and not op_is_const(d["a"][0]) and (set(up_params(ctx, body, d["a"][0])) & set(frames)):
-                                from_args = True
-                    pairs = bool(re.search(r"Vec<\(", ety))
-                    lpush = bool(ctx.cg.reach([fn]) & {ENGINE + "lpush", ENGINE + "rpush"})
-                    R.inst(fn, "reorder#%d" % nre, {"function": fn, "at": body.loc(i), "call": shared.short_callee(t["f"]), "filled_from_the_command_frames": from_args, "pairs": pairs, "feeds_a_list_push": lpush})
-                    if from_args and (pairs or lpush):
-                        R.finding(fn, "argument-order:%s" % shared.short_callee(t["f"]).split("::")[-1],
-                                  "%s re-orders (line %d, %s) what it collected from the command's arguments before applying it: for a repeated %s the pair applied last is no longer the one the client gave last" % (fn.split("::")[-1], body.bb_line(i), shared.short_callee(t["f"]), "member / field / key" if pairs else "element the list order changes and"), body.loc(i))
+            lpush = bool(ctx.cg.reach([fn]) & {ENGINE + "lpush", ENGINE + "rpush"})
+            for body, i, what, from_args, pairs, bad in reorder_sites(ctx, fn, b, frames, lpush):
+                nre += 1
+                R.inst(fn, "reorder#%d" % nre, {"function": fn, "at": body.loc(i), "call": what, "filled_from_the_command_frames": from_args, "pairs": pairs, "feeds_a_list_push": lpush})
+                if bad:
+                    R.finding(fn, "argument-order:%s" % what.split("::")[-1],
+                              "%s re-orders (line %d, %s) what it collected from the command's arguments before applying it: for a repeated %s the pair applied last is no longer the one the client gave last" % (fn.split("::")[-1], body.bb_line(i), what, "member / field / key" if pairs else "element the list order changes and"), body.loc(i))
         R.floor("command_layer_functions_with_frames", n)
     return rule_arg_order
 
